@@ -285,9 +285,11 @@ def c_axil_xbar(nm, ns, all_responds=True):
         same_i = z3.Implies(z3.And(awv, NZ(wcnt)), wdec == wtgt)
         for j, s in enumerate(slaves):
             right = z3.If(w_due, bit(wtgt, j), z3.And(awv, match(regions[j], h.v(m.aw.addr))))
-            others = z3.Or(*[z3.And(fire(h, o.w), paytok(h, o.w) == paytok(h, s.w)) for k, o in enumerate(masters) if k != i]) if nm > 1 else z3.BoolVal(False)
             if shape_ok:
                 h.ensure(f"ens.wr.w.m{i}s{j}.by-address@w-not-before-aw", z3.Implies(z3.And(fire(h, s.w), eqc(h.v(grant_of(j, "wr")), i), w_after_aw, same_i), right))
+                if i == 0 and j == 0 and ns > 1:
+                    h.finding("finding.wr.w.m0s0.by-address@w-before-aw", z3.Implies(z3.And(fire(h, s.w), eqc(h.v(grant_of(j, "wr")), i), same_i), right),
+                              "AXILiteDecoder (row of the crossbar) routes a W beat by the address currently on AW: a W beat that precedes its AW (legal in AXI4-Lite) is delivered to whatever slave the idle AW address decodes to")
     # every requesting master is served: master i asking for slave j is granted and can hand over its request within a bounded time, whatever the
     # other masters do at other slaves (nothing outstanding at slave j, nobody else aiming at slave j)
     for dirn in ("wr", "rd"):
@@ -310,6 +312,243 @@ def c_axil_xbar(nm, ns, all_responds=True):
     h.bmc_depth = 6
     h.functions = ["litex.soc.interconnect.axi.axi_lite.AXILiteCrossbar.__init__", "litex.soc.interconnect.axi.axi_lite.AXILiteArbiter.__init__",
                    "litex.soc.interconnect.axi.axi_lite.AXILiteDecoder.__init__", "litex.soc.interconnect.axi.axi_lite.get_check_parameters"]
+    return h
+
+# =====================================================================================================================================
+# 2. AXILiteInterconnectShared / AXIInterconnectShared WITH their time-out
+# =====================================================================================================================================
+class _Lite:
+    name = "AXILiteInterconnectShared"; Cls = AXILiteInterconnectShared; Bus = LITE.Bus; mod = "axi_lite"; TO = "AXILiteTimeout"
+    mkif = staticmethod(lambda idw: mkl())
+    m_in = staticmethod(master_side_inputs); s_in = staticmethod(slave_side_inputs)
+    tok = staticmethod(lambda h, ep, ch, noid=False: paytok(h, ep))
+    env = staticmethod(lambda h, ep, ch, name: src_env(h, ep, name))
+    wlast = staticmethod(lambda h, m: z3.BoolVal(True)); rlast = staticmethod(lambda h, m: z3.BoolVal(True))
+    regions_for = staticmethod(LITE.regions_for); match = staticmethod(LITE.match)
+    onehot = staticmethod(lambda regions, addr: LITE.onehot(None, regions, addr))
+    ghosts = staticmethod(lambda h, shared, slaves, regions, locks, sreg: LITE.decoder_contract(h, shared, slaves, regions, locks, sreg, prefix="dec."))
+class _Full:
+    name = "AXIInterconnectShared"; Cls = AXIInterconnectShared; Bus = FULL.Bus; mod = "axi_full"; TO = "AXITimeout"
+    mkif = staticmethod(lambda idw: FULL.mkif(idw))
+    m_in = staticmethod(FULL.m_inputs); s_in = staticmethod(FULL.s_inputs)
+    tok = staticmethod(FULL.tok); env = staticmethod(FULL.src_env4)
+    wlast = staticmethod(lambda h, m: b(h.v(m.w.last))); rlast = staticmethod(lambda h, m: b(h.v(m.r.last)))
+    regions_for = staticmethod(FULL.regions_for); match = staticmethod(FULL.match); onehot = staticmethod(FULL.onehot)
+    ghosts = staticmethod(lambda h, shared, slaves, regions, locks, sreg: FULL.decoder_ghosts(h, shared, regions, locks, sreg, prefix="dec."))
+
+SCEN = ("scenario S of the time-out clauses: (S1) every master has at most one request outstanding per direction (no new AW/W before the B, no new AR before the last R); "
+        "(S2a) a W beat is offered together with or after its AW, (S2b) while the time-out absorbs a write the master hands over the rest of it without a pause; "
+        "(S3) a slave whose write (read) side has let a request time out stays silent on that side")
+
+def c_axi_shared_to(kind, nm, ns, T, idw=1, probe=None):
+    """shared AXI-Lite / AXI4 interconnect built WITH timeout_cycles=T.  C08: routing and response clauses as in C08_axil_ic.c_shared /
+    C08_axi_full_ic.c_shared.  C11 through the interconnect, at the master ports: a request of the bus owner that stalls T cycles (silent slave,
+    unmapped address) raises the error pulse and is answered with SLVERR; before that nothing is disturbed; afterwards every master is served."""
+    A = _Full if kind == "full" else _Lite; full = kind == "full"
+    masters = [A.mkif(idw) for _ in range(nm)]; slaves = [A.mkif(idw) for _ in range(ns)]; regions = A.regions_for(ns); match = A.match
+    d = mk(A.Cls, masters, [(r.decoder(A.Bus), s) for r, s in zip(regions, slaves)], False, T)
+    ins = []
+    for m in masters: ins += A.m_in(m)
+    for s in slaves: ins += A.s_in(s)
+    h = HwCheck(f"{A.name}({nm}x{ns},id_width={idw},timeout={T})", d, ins)
+    V = lambda sig: b(h.v(sig))
+    shared = L(d, "shared"); arb = getattr(d, "arbiter", None); dec = getattr(d, "decoder", None); to = getattr(d, "timeout", None)
+    if shared is None or arb is None or to is None or not all(hasattr(arb, a) for a in ("rr_write", "rr_read")) or not hasattr(to, "error"):
+        raise SidecarMismatch("shared interconnect is no longer arbiter (rr_write/rr_read) + decoder + timeout (error) around a `shared` interface")
+    stall = {}; held = {}
+    for i, m in enumerate(masters):
+        for ch in ("aw", "w", "ar"): stall[i, ch], held[i, ch] = A.env(h, getattr(m, ch), ch, f"m{i}{ch}")
+    for j, s in enumerate(slaves): A.env(h, s.b, "b", f"s{j}b"); A.env(h, s.r, "r", f"s{j}r")
+    lc = locals_of(dec) if dec is not None else {}
+    locks, sreg = lc.get("locks"), lc.get("slave_sel_reg")
+    if not (isinstance(locks, dict) and isinstance(sreg, dict) and all(k in locks and k in sreg for k in ("write", "read"))): locks = sreg = None
+    ghosts, w_out = A.ghosts(h, shared, slaves, regions, locks, sreg)
+    GRANT = {"wr": arb.rr_write.grant, "rd": arb.rr_read.grant}
+    grant = {k: h.v(v) for k, v in GRANT.items()}
+    own = lambda dirn, i: eqc(grant[dirn], i)
+    for dirn, lk in (("wr", "wr_lock"), ("rd", "rd_lock")):
+        if hasattr(arb, lk) and hasattr(getattr(arb, lk), "counter"): h.hint(f"arb.{dirn}.cnt", zx(h.v(getattr(arb, lk).counter), CW) == ghosts[dirn][0])
+        h.hint(f"{dirn}.grant<n", ult(grant[dirn], nm))
+    rspf = lambda itf, dirn: fire(h, itf.b) if dirn == "wr" else z3.And(fire(h, itf.r), A.rlast(h, itf))
+    # ---- slave ports: what each slave has received and not answered; AXI rules of the slaves stated at their own ports
+    sg = []
+    for j, s in enumerate(slaves):
+        sc = {}
+        for dirn in ("wr", "rd"):
+            c = h.ghost(f"s{j}.{dirn}_out", CW); h.ghost_next(c, updown(c, fire(h, getattr(s, REQ[dirn])), rspf(s, dirn))); sc[dirn] = c
+            h.assume(ult(c, 200), "fewer than 200 requests outstanding per slave and direction"); h.hint(f"s{j}.{dirn}.cnt<255", ult(c, 255))
+        sw = h.ghost(f"s{j}.w_out", CW); h.ghost_next(sw, updown(sw, z3.And(fire(h, s.w), A.wlast(h, s)), fire(h, s.b))); h.assume(ult(sw, 200)); sc["w"] = sw
+        h.assume(z3.Implies(V(s.b.valid), z3.And(NZ(sc["wr"]), NZ(sw))), "slave sends B only for a write it has received completely (AW and the last W beat) and not yet answered")
+        h.assume(z3.Implies(V(s.r.valid), NZ(sc["rd"])), "slave sends R only for a read it has received and not yet completed")
+        sg.append(sc)
+    # ---- master ports: one transaction per direction in flight (specification state of scenario S1)
+    done = {}
+    for i, m in enumerate(masters):
+        bf = fire(h, m.b); rf = rspf(m, "rd")
+        for nme, setc, clr in (("aw", fire(h, m.aw), bf), ("w", z3.And(fire(h, m.w), A.wlast(h, m)), bf), ("ar", fire(h, m.ar), rf)):
+            g = h.ghost(f"m{i}.{nme}_done", 1); h.ghost_next(g, z3.If(clr, K(0, 1), z3.If(setc, K(1, 1), g))); done[i, nme] = g
+    # ---- time-out specification state (as in C11_timeout.c_axil_timeout), over the ports of the bus owner
+    GW = max(2, (T + 1).bit_length() + 1)
+    def o(dirn, f): return sel_by(grant[dirn], [f(m) for m in masters])        # value at the owner's port
+    wcond = z3.Or(z3.And(o("wr", lambda m: V(m.aw.valid)), z3.Not(o("wr", lambda m: V(m.aw.ready)))), z3.And(o("wr", lambda m: V(m.w.valid)), z3.Not(o("wr", lambda m: V(m.w.ready)))))
+    rcond = z3.And(o("rd", lambda m: V(m.ar.valid)), z3.Not(o("rd", lambda m: V(m.ar.ready))))
+    resp = {"wr": h.ghost("resp_w", 1), "rd": h.ghost("resp_r", 1)}; wt = {"wr": h.ghost("waited_w", GW), "rd": h.ghost("waited_r", GW)}
+    cond = {"wr": wcond, "rd": rcond}; det = {}
+    for dirn in ("wr", "rd"):
+        R, W_ = resp[dirn], wt[dirn]
+        det[dirn] = z3.And(z3.Not(b(R)), uge(W_, T), cond[dirn])
+        ofire = o(dirn, lambda m: rspf(m, dirn) if dirn == "rd" else fire(h, m.b))
+        h.ghost_next(R, z3.If(det[dirn], K(1, 1), z3.If(z3.And(b(R), ofire), K(0, 1), R)))
+        h.ghost_next(W_, z3.If(z3.And(z3.Not(b(R)), cond[dirn]), z3.If(uge(W_, T), W_, W_ + 1), K(0, GW)))
+        h.hint(f"{dirn}.waited<=T", ule(W_, T))
+        for sgn in timer_regs(h, T): h.hint(f"{dirn}.timer:{sgn.duid}", zx(h.v(sgn), GW) + W_ == K(T, GW))
+    for fsm_name, R in (("wr_fsm", resp["wr"]), ("rd_fsm", resp["rd"])):
+        fsm = getattr(to, fsm_name, None)
+        if fsm is not None and hasattr(fsm, "state") and fsm.state in h.ts.var: h.hint(f"{fsm_name}.state", zx(h.v(fsm.state), 2) == zx(R, 2))
+    # ---- scenario S (history ghosts): S1 single outstanding, S2a W not before AW, S2b no pause while absorbed, S3 a timed-out slave side stays silent
+    tgt_now = {dirn: z3.If(NZ(ghosts[dirn][0]), ghosts[dirn][1], A.onehot(regions, o(dirn, lambda m: h.v(getattr(m, REQ[dirn]).addr)))) for dirn in ("wr", "rd")}
+    dead = {}
+    for j in range(ns):
+        for dirn in ("wr", "rd"):
+            g = h.ghost(f"s{j}.{dirn}_timed_out", 1); h.ghost_next(g, bv1(z3.Or(b(g), z3.And(det[dirn], bit(tgt_now[dirn], j))))); dead[j, dirn] = g
+    S1 = z3.And(*[z3.Implies(b(done[i, c]), z3.Not(V(getattr(m, c).valid))) for i, m in enumerate(masters) for c in ("aw", "w", "ar")])
+    S2a = z3.And(*[z3.Implies(V(m.w.valid), z3.Or(V(m.aw.valid), b(done[i, "aw"]))) for i, m in enumerate(masters)])
+    S2b = z3.Implies(b(resp["wr"]), o("wr", lambda m: z3.And(z3.Or(V(m.aw.valid), b(done[masters.index(m), "aw"])), z3.Or(V(m.w.valid), b(done[masters.index(m), "w"])))))
+    S3 = z3.And(*[z3.Implies(b(dead[j, "wr"]), z3.And(z3.Not(V(s.aw.ready)), z3.Not(V(s.w.ready)), z3.Not(V(s.b.valid)))) for j, s in enumerate(slaves)],
+                *[z3.Implies(b(dead[j, "rd"]), z3.And(z3.Not(V(s.ar.ready)), z3.Not(V(s.r.valid)))) for j, s in enumerate(slaves)])
+    hist = {}
+    for nme, now in (("S1", S1), ("S2a", S2a), ("S2b", S2b), ("S3", S3)):
+        g = h.ghost("hist_" + nme, 1, init=1); h.ghost_next(g, bv1(z3.And(b(g), now))); hist[nme] = (g, now)
+    def scen(*names): return z3.And(*[z3.And(b(hist[n][0]), hist[n][1]) for n in names])
+    SC = scen("S1", "S2a", "S2b", "S3"); CALM = z3.And(*[b(hist[n][0]) for n in ("S1", "S2a", "S2b", "S3")])
+    def ens_s(name, clause): h.ensure(name + "@S", z3.Implies(SC, clause))
+    # ---- helper invariants (code + scenario derived)
+    one = lambda g: zx(g, CW)
+    cnt_w, tgt_w, _ = ghosts["wr"]; cnt_r, tgt_r, _ = ghosts["rd"]
+    h.hint("S.wr.cnt", z3.Implies(CALM, cnt_w == z3.Sum(*[one(done[i, "aw"]) for i in range(nm)]) if nm > 1 else cnt_w == one(done[0, "aw"])))
+    h.hint("S.rd.cnt", z3.Implies(CALM, cnt_r == z3.Sum(*[one(done[i, "ar"]) for i in range(nm)]) if nm > 1 else cnt_r == one(done[0, "ar"])))
+    h.hint("S.w.cnt", z3.Implies(CALM, w_out == z3.Sum(*[one(done[i, "w"]) for i in range(nm)]) if nm > 1 else w_out == one(done[0, "w"])))
+    for i in range(nm):
+        h.hint(f"S.m{i}.aw-owner", z3.Implies(z3.And(CALM, b(done[i, "aw"])), own("wr", i)))
+        h.hint(f"S.m{i}.ar-owner", z3.Implies(z3.And(CALM, b(done[i, "ar"])), own("rd", i)))
+        h.hint(f"S.m{i}.w-owner", z3.Implies(z3.And(CALM, b(done[i, "w"])), z3.And(own("wr", i), z3.Or(b(done[i, "aw"]), b(stall[i, "aw"])))))
+        h.hint(f"S.m{i}.resp-w", z3.Implies(z3.And(CALM, b(resp["wr"]), own("wr", i)), z3.Or(b(done[i, "aw"]), b(stall[i, "aw"]))))
+        h.hint(f"S.m{i}.resp-r", z3.Implies(z3.And(CALM, b(resp["rd"]), own("rd", i)), z3.Or(b(done[i, "ar"]), b(stall[i, "ar"]))))
+    ADW = h.v(masters[0].aw.addr).size()
+    def held_addr(i, ch):      # address inside the held payload token of the source environment (the address is the first payload field)
+        t = held[i, ch]; return z3.Extract(t.size() - 1, t.size() - ADW, t)
+    for j in range(ns):
+        for dirn, c in (("wr", "aw"), ("rd", "ar")):
+            cnt, tgt, _ = ghosts[dirn]; live = z3.Not(b(dead[j, dirn]))
+            # the slave side selected while the time-out responds is the one that timed out
+            h.hint(f"S.s{j}.{dirn}.resp-target", z3.Implies(z3.And(CALM, b(resp[dirn]), NZ(cnt), bit(tgt, j)), b(dead[j, dirn])))
+            for i in range(nm):
+                h.hint(f"S.s{j}.{dirn}.resp-target.m{i}", z3.Implies(z3.And(CALM, b(resp[dirn]), cnt == K(0, CW), own(dirn, i), b(stall[i, c]), match(regions[j], held_addr(i, c))), b(dead[j, dirn])))
+            # a live slave side holds exactly the request the shared bus has outstanding at it
+            h.hint(f"S.s{j}.{dirn}.live", z3.Implies(z3.And(CALM, live), sg[j][dirn] == z3.If(z3.And(NZ(cnt), bit(tgt, j)), K(1, CW), K(0, CW))))
+        live = z3.Not(b(dead[j, "wr"]))
+        h.hint(f"S.s{j}.w.live", z3.Implies(z3.And(CALM, live), z3.And(ule(sg[j]["w"], 1), z3.Implies(NZ(sg[j]["w"]), z3.And(NZ(w_out),
+               z3.Or(z3.And(NZ(cnt_w), bit(tgt_w, j)), z3.And(cnt_w == K(0, CW), *[z3.Implies(own("wr", i), z3.And(b(stall[i, "aw"]), match(regions[j], held_addr(i, "aw")))) for i in range(nm)])))))))
+    # ================================================ C08: routing and responses ===================================================
+    SLVERR = K(0b10, 2)
+    for dirn, chans in (("wr", ("aw", "w", "b")), ("rd", ("ar", "r"))):
+        cnt, tgt, _ = ghosts[dirn]; g = grant[dirn]; R = b(resp[dirn])
+        h.ensure(f"ens.{dirn}.grant-exists", ult(g, nm))
+        # arbitration and slave selection never change while responses are outstanding
+        h.ensure(f"ens.{dirn}.grant-lock", z3.Implies(NZ(cnt), h.n(GRANT[dirn]) == g))
+        for c in chans:
+            fwd = c in ("aw", "w", "ar"); noid = idw > 1 and c != "w" and full
+            for j, s in enumerate(slaves):
+                for i, m in enumerate(masters):
+                    se, me = getattr(s, c), getattr(m, c)
+                    if fwd:   # a request / W beat accepted by slave j comes from the bus owner, unchanged
+                        h.ensure(f"ens.{dirn}.{c}.from-owner{j}.{i}" + ("@except-id" if noid else ""), z3.Implies(z3.And(fire(h, se), own(dirn, i)), z3.And(fire(h, me), A.tok(h, se, c, noid) == A.tok(h, me, c, noid))))
+                    else:     # a response accepted from slave j goes to the bus owner, unchanged - the time-out never replaces or swallows a slave's response
+                        ens_s(f"ens.{dirn}.{c}.to-owner{j}.{i}" + ("@except-id" if noid else ""), z3.Implies(z3.And(fire(h, se), own(dirn, i)), z3.And(fire(h, me), A.tok(h, me, c, noid) == A.tok(h, se, c, noid))))
+                    if noid and i == 0 and j == 0 and fwd:
+                        h.finding(f"finding.{dirn}.{c}.id-truncated", z3.Implies(z3.And(fire(h, se), own(dirn, i)), h.v(se.id) == h.v(me.id)), FULL.ID_WHAT)
+            for i, m in enumerate(masters):
+                me = getattr(m, c)
+                h.ensure(f"ens.{dirn}.{c}.only-owner{i}", z3.Implies(z3.Not(own(dirn, i)), z3.Not(V(me.ready if fwd else me.valid))))
+                # C11 "requests answered in time are not disturbed": unless the time-out is responding, every transfer at a master port is the transfer of exactly one slave port
+                sf = [fire(h, getattr(s, c)) for s in slaves]
+                h.ensure(f"ens.{dirn}.{c}.exactly-one-slave{i}@not-timed-out", z3.Implies(z3.And(fire(h, me), z3.Not(R)), z3.And(z3.AtMost(*sf, 1), z3.Or(*sf))))
+            h.ensure(f"ens.{dirn}.{c}.one-slave", z3.AtMost(*[fire(h, getattr(s, c)) for s in slaves], 1))
+        for j, s in enumerate(slaves):
+            h.ensure(f"ens.{dirn}.sel-lock{j}", z3.Implies(z3.And(NZ(cnt), z3.Not(bit(tgt, j))),
+                     z3.And(*[z3.Not(V(getattr(s, c).valid)) if c in ("aw", "w", "ar") else z3.Not(V(getattr(s, c).ready)) for c in chans])))
+        # slave chosen by address (S1: nothing else of the owner is outstanding, so no scenario restriction on the target is needed)
+        c = REQ[dirn]
+        for i, m in enumerate(masters):
+            for j, s in enumerate(slaves):
+                ens_s(f"ens.{dirn}.by-address{j}.{i}", z3.Implies(z3.And(fire(h, getattr(s, c)), own(dirn, i)), match(regions[j], h.v(getattr(m, c).addr))))
+    for i, m in enumerate(masters):
+        for j, s in enumerate(slaves):     # the W beats of the pair reach the slave chosen by the address of their AW
+            right = z3.If(b(done[i, "aw"]), bit(tgt_w, j), z3.And(V(m.aw.valid), match(regions[j], h.v(m.aw.addr))))
+            ens_s(f"ens.wr.w.by-address{j}.{i}", z3.Implies(z3.And(fire(h, s.w), own("wr", i)), right))
+    # ================================================ C11 through the interconnect ==================================================
+    error = V(to.error)
+    h.ensure("ens.error-pulse", error == z3.Or(det["wr"], det["rd"]))       # the pulse that feeds the SoC bus-error counter: exactly at a detection
+    for dirn in ("wr", "rd"):
+        R = b(resp[dirn]); c = REQ[dirn]
+        h.ensure(f"ens.{dirn}.no-early-time-out", z3.Implies(det[dirn], z3.And(uge(wt[dirn], T), cond[dirn])))
+        for i, m in enumerate(masters):
+            # while the time-out responds, the owner's request is absorbed and answered with SLVERR (all-ones data, last beat)
+            if dirn == "wr":
+                h.ensure(f"ens.wr.respond{i}", z3.Implies(z3.And(R, own("wr", i)), z3.And(h.v(m.aw.ready) == h.v(m.aw.valid), h.v(m.w.ready) == h.v(m.w.valid),
+                         V(m.b.valid) == z3.And(z3.Not(V(m.aw.valid)), z3.Not(V(m.w.valid))), z3.Implies(V(m.b.valid), h.v(m.b.resp) == SLVERR))))
+            else:
+                h.ensure(f"ens.rd.respond{i}", z3.Implies(z3.And(R, own("rd", i)), z3.And(h.v(m.ar.ready) == h.v(m.ar.valid), V(m.r.valid) == z3.Not(V(m.ar.valid)),
+                         z3.Implies(V(m.r.valid), z3.And(h.v(m.r.resp) == SLVERR, h.v(m.r.data) == K(2**h.v(m.r.data).size() - 1, h.v(m.r.data).size()), A.rlast(h, m))))))
+            # the request that is absorbed reaches no slave (S3: the slave side that timed out is the one selected)
+            ens_s(f"ens.{dirn}.absorbed-not-delivered{i}", z3.Implies(z3.And(R, own(dirn, i)), z3.And(*[z3.Not(fire(h, getattr(s, cc))) for s in slaves for cc in (("aw", "w", "b") if dirn == "wr" else ("ar", "r"))])))
+            # exactly one response per request: a response at a master port answers a request this master has handed over completely
+            if dirn == "wr": ens_s(f"ens.wr.b-answers-request{i}", z3.Implies(fire(h, m.b), z3.And(b(done[i, "aw"]), b(done[i, "w"]))))
+            else: ens_s(f"ens.rd.r-answers-request{i}", z3.Implies(V(m.r.valid), b(done[i, "ar"])))
+        # a stalled request of the owner is detected within T+1 cycles, whatever the slaves do; then answered within 3 cycles of a ready owner
+        h.respond(f"resp.{dirn}.detect", z3.And(cond[dirn], z3.Not(R)), det[dirn], T + 1)
+    h.respond("resp.wr.term", z3.And(SC, o("wr", lambda m: V(m.b.ready))), o("wr", lambda m: z3.And(fire(h, m.b), h.v(m.b.resp) == SLVERR)), 3, start=z3.And(CALM, b(resp["wr"])))
+    h.respond("resp.rd.term", z3.And(SC, o("rd", lambda m: V(m.r.ready))), o("rd", lambda m: z3.And(fire(h, m.r), h.v(m.r.resp) == SLVERR)), 3, start=z3.And(CALM, b(resp["rd"])))
+    # an unmapped address reaches no slave and is not accepted: it stalls, so the clauses above terminate it
+    for dirn in ("wr", "rd"):
+        c = REQ[dirn]; cnt = ghosts[dirn][0]
+        for i, m in enumerate(masters):
+            me = getattr(m, c); unm = z3.And(V(me.valid), own(dirn, i), cnt == K(0, CW), z3.Not(b(resp[dirn])), *[z3.Not(match(r, h.v(me.addr))) for r in regions])
+            h.ensure(f"ens.{dirn}.unmapped-stalls{i}", z3.Implies(unm, z3.And(z3.Not(V(me.ready)), *[z3.Not(V(getattr(s, c).valid)) for s in slaves])))
+    # after a time-out every master completes further requests normally: request counters / locks are released exactly when no master waits for a response ...
+    for dirn, lk, c in (("wr", "wr_lock", "aw"), ("rd", "rd_lock", "ar")):
+        idle = z3.And(*[z3.Not(b(done[i, c])) for i in range(nm)])
+        regs = [getattr(arb, lk).counter] if hasattr(arb, lk) and hasattr(getattr(arb, lk), "counter") else []
+        if locks is not None: regs.append(locks[{"wr": "write", "rd": "read"}[dirn]].counter)
+        ens_s(f"ens.{dirn}.locks-released", z3.Implies(idle, z3.And(ghosts[dirn][0] == K(0, CW), z3.Not(b(resp[dirn])) if False else z3.BoolVal(True), *[h.v(r) == K(0, h.v(r).size()) for r in regs])))
+        # ... and every master is then granted within 2 cycles (from ANY reachable state, in particular after any number of time-outs)
+        chs = ("aw", "w") if dirn == "wr" else ("ar",)
+        for i, m in enumerate(masters):
+            others_idle = z3.And(*[z3.Not(V(getattr(om, cc).valid)) for k, om in enumerate(masters) if k != i for cc in chs])
+            no_rsp = z3.And(*[z3.Not(V(getattr(s, RSP[dirn]).valid)) for s in slaves])
+            h.respond(f"resp.{dirn}.serve{i}", z3.And(SC, V(getattr(m, c).valid), others_idle, idle, z3.Not(b(resp[dirn])), no_rsp), own(dirn, i), 2, start=CALM)
+    # ================================================ findings (scenario S is not a convenience) ====================================
+    il = nm - 1; ml = masters[il]
+    if probe != "noS1":
+        h.finding("finding.wr.b-to-owner@several-outstanding", z3.Implies(scen("S2a", "S2b", "S3"), z3.And(*[z3.Implies(z3.And(fire(h, s.b), own("wr", il)), z3.And(fire(h, ml.b), h.v(ml.b.resp) == h.v(s.b.resp))) for s in slaves])),
+                  f"{A.TO} on the shared bus with several requests outstanding (legal): a later AW that stalls is timed out while the slave still owes B for an earlier write; while the time-out responds the slave's B is "
+                  "swallowed or replaced by the synthesised SLVERR (b.valid/b.resp are overridden, b.ready still reaches the slave): one response is lost, the request counters of arbiter and decoder never return to 0 and the write grant stays locked")
+    h.finding("finding.wr.b-answers-request@w-after-aw-pause", z3.Implies(scen("S1", "S2a", "S3"), z3.Implies(fire(h, ml.b), z3.And(b(done[il, "aw"]), b(done[il, "w"])))),
+              f"{A.TO} sends the synthesised B as soon as neither AW nor W is offered (b.valid = ~aw.valid & ~w.valid), not after both were received: a master whose W follows its AW by a cycle (or whose W precedes its AW, or that pauses "
+              "inside a burst) gets the SLVERR B before it has handed over the write; the rest then stalls again and is timed out a second time (two B for one write)")
+    h.finding("finding.rd.r-answers-request@slave-accepts-while-absorbed", z3.Implies(scen("S1", "S2a", "S2b"), z3.Implies(V(ml.r.valid), b(done[il, "ar"]))),
+              f"{A.TO} overrides ar.ready/r.valid of the shared bus but the decoder still presents ar.valid to the selected slave: a slow slave that accepts the AR in the cycle it is absorbed answers it later, "
+              "and that R is delivered as an unsolicited (or, for the next read, wrong) response")
+    # ================================================ covers ========================================================================
+    seen = h.ghost("seen_error", 1); h.ghost_next(seen, bv1(z3.Or(b(seen), error)))
+    h.cover("cover.wr.time-out.answered", z3.And(SC, b(resp["wr"]), fire(h, ml.b), h.v(ml.b.resp) == SLVERR), depth=T + 5)
+    h.cover("cover.rd.time-out.unmapped", z3.And(SC, det["rd"], *[z3.Not(match(r, o("rd", lambda m: h.v(m.ar.addr)))) for r in regions]), depth=T + 3)
+    h.cover("cover.recovered.other-master-write", z3.And(SC, b(seen), fire(h, masters[0].b), fire(h, slaves[-1].b), z3.Not(b(resp["wr"]))), depth=T + 8)
+    h.bmc_depth = T + 8; h.bmc_time = 120
+    h.use_auto = False
+    h.functions = [f"litex.soc.interconnect.axi.{A.mod}.{A.name}.__init__ (timeout_cycles given)", f"litex.soc.interconnect.axi.{A.mod}.{A.TO}.__init__",
+                   f"litex.soc.interconnect.axi.{A.mod}.{'AXIArbiter' if full else 'AXILiteArbiter'}.__init__", f"litex.soc.interconnect.axi.{A.mod}.{'AXIDecoder' if full else 'AXILiteDecoder'}.__init__",
+                   "litex.gen.genlib.misc.WaitTimer.__init__"]
     return h
 
 def cases(tier):
